@@ -12,7 +12,88 @@ from vf.props import pool_common as PC
 PROP = "C12"
 
 
+def object_case(g, idx):
+    """A report built from a search object after a SEQUENCE of hybrid / hourly simulate() and size() calls: what the summary says
+    must be what simulating the reported field at the reported height with the reported method gives (deep copy, own call)."""
+    import copy
+    import warnings
+
+    from ghedesigner.enums import FlowConfigType, TimestepType
+    from ghedesigner.output import OutputManager
+    from ghedesigner.search_routines import Bisection1D
+    from ghedesigner.simulation import SimulationParameters
+
+    from vf.gen import ghe as GG
+    from vf.gen import loads as GL
+    from vf.gen import phys as GP
+
+    pipe_kind = GP.PIPES[idx % 4]
+    ph = GP.draw_phys(g, pipe_kind)
+    nx, ny = [(1, 1), (1, 2), (2, 2), (2, 3)][int(g.integers(0, 4))]
+    coords = GG.grid(nx, ny, float(round(g.uniform(4.5, 8.0), 1)))
+    desc = GL.draw_desc(g, families=["atlanta", "sinus", "spiky", "atlanta_shift", "heating_only"])
+    desc["scale"] = 0.02 * nx * ny
+    loads = GL.make_loads(desc)
+    hmin, hmax = 40.0, float(round(g.uniform(110, 160), 1))
+    tg = ph["soil"]["undisturbed_temp"]
+    pt, fluid, bh, pipe, grout, soil = GP.bhe_objects(ph, hmax)
+    sp = SimulationParameters(1, 12, float(round(tg + g.uniform(8, 18), 1)), float(round(tg - g.uniform(5, 12), 1)), hmax, hmin)
+    M = {"hybrid": TimestepType.HYBRID, "hourly": TimestepType.HOURLY}
+    ops = []
+    for _ in range(int(g.integers(2, 4))):
+        ops.append((str(g.choice(["simulate", "simulate", "size"])), str(g.choice(["hybrid", "hourly"])), float(round(g.uniform(hmin, hmax), 2))))
+    if len({o[1] for o in ops}) == 1:
+        ops.append(("simulate", "hourly" if ops[0][1] == "hybrid" else "hybrid", float(round(g.uniform(hmin, hmax), 2))))
+    case = {"pipe": pipe_kind, "field": f"{nx}x{ny}", "ops": ops, "loads": desc, "limits": [sp.max_EFT_allowable, sp.min_EFT_allowable], "heights": [hmin, hmax]}
+    out = []
+    reports = 0
+    with warnings.catch_warnings():
+        warnings.simplefilter("ignore")
+        search = Bisection1D([coords], [f"{nx}X{ny}"], float(round(g.uniform(0.2, 0.5), 2)), bh, pt, fluid, pipe, grout, soil, sp, loads,
+                             method=TimestepType.HYBRID, flow_type=FlowConfigType.BOREHOLE, search=False, field_type="rectangle")
+        search.selected_coordinates = coords
+        for k, (op, meth, h) in enumerate(ops):
+            try:
+                if op == "simulate":
+                    search.ghe.bhe.b.H = h
+                    search.ghe.simulate(method=M[meth])
+                else:
+                    search.ghe.compute_g_functions()
+                    search.ghe.size(method=M[meth])
+            except ValueError:
+                continue
+            om = OutputManager(search, 0.0, "p", "n", "a", "m", load_method=M[meth])
+            od = om.output_dict
+            reports += 1
+            H = float(search.ghe.bhe.b.H)
+            g2 = copy.deepcopy(search.ghe)
+            mx, mn = g2.simulate(method=M[meth])
+            rep_max, rep_min = od["simulation_results"]["max_hp_eft"]["value"], od["simulation_results"]["min_hp_eft"]["value"]
+            tag = f"report {k + 1} of {len(ops)} after {[o[0] + ':' + o[1] for o in ops[: k + 1]]}"
+            if max(abs(rep_max - mx), abs(rep_min - mn)) > 1e-3:
+                out.append(("object:reported-temperatures-not-those-of-reported-height-and-method", f"{tag}: summary {rep_max:.4f}/{rep_min:.4f} vs simulate({meth}) at H={H:.3f}: {mx:.4f}/{mn:.4f}"))
+            if od["ghe_system"]["active_borehole_length"]["value"] != H:
+                out.append(("object:reported-height-differs", f"{tag}: {od['ghe_system']['active_borehole_length']['value']} vs {H}"))
+            if od["ghe_system"]["number_of_boreholes"] != len(coords) or len(om.borehole_location_data_rows) - 1 != len(coords):
+                out.append(("object:borehole-count-inconsistent", f"{tag}: {od['ghe_system']['number_of_boreholes']} / {len(om.borehole_location_data_rows) - 1} rows vs {len(coords)}"))
+            if abs(od["ghe_system"]["total_drilling"]["value"] - len(coords) * H) > 1e-9 * len(coords) * H:
+                out.append(("object:total-drilling-not-count-times-height", f"{tag}: {od['ghe_system']['total_drilling']['value']} vs {len(coords)} x {H}"))
+    return out, case, reports
+
+
 def run_shard(spec):
+    if spec.get("part") == "objects":
+        from vf.common import rng
+
+        g = rng(spec["seed"], PROP, spec["shard"])
+        res = {"kind": "objects", "viol": [], "cases": [], "reports": 0}
+        for i in range(spec["n"]):
+            out, case, reports = object_case(g, spec["shard"] * spec["n"] + i)
+            res["reports"] += reports
+            res["cases"].append([case["pipe"], case["field"], "+".join(o[0] + ":" + o[1] for o in case["ops"]), case["loads"]["seed"]])
+            for mech, msg in out:
+                res["viol"].append({"mechanism": mech, "message": f"{case['field']} {case['pipe']}: {msg}", "case": case})
+        return res
     from vf.scenario import run_shard as rs
 
     return rs(spec)
@@ -78,7 +159,9 @@ def check(tier, seed):
     rep = Report(PROP)
     rep.rule = (
         "scenario pool as C01; every run that returned a design (through any path, escapes included) is judged. non-trivial = judged run; "
-        "distinct by scenario inputs; evidence lists the outcome classes seen (bracketed, clamped-min, clamped-max, unmet-continued)."
+        "distinct by scenario inputs; evidence lists the outcome classes seen (bracketed, clamped-min, clamped-max, unmet-continued). Object level: real "
+        "search objects on 1-6 borehole fields, sequences of simulate()/size() with the HYBRID and the HOURLY method (both occur in every sequence), a "
+        "report built after every step with the method of that step and compared with the same call on a deep copy."
     )
     for p in problems:
         rep.inconclusive.append("scenario failed in the harness: " + p)
@@ -92,6 +175,22 @@ def check(tier, seed):
         rep.nontrivial([rec["key"]])
         rep.sample(PC.brief(rec), cap=4)
     rep.extra["outcome_classes_judged"] = classes
+    # object level: reports after sequences of hybrid and hourly runs on one search object
+    from vf.pool import run_pool
+
+    n_obj = {"quick": 2, "thorough": 10}[tier]
+    for r in run_pool("vf.props.C12", [{"part": "objects", "seed": seed, "shard": s_, "n": n_obj} for s_ in range(16)], timeout=3600):
+        if "_harness_error" in r:
+            rep.inconclusive.append("object shard failed: " + r["_harness_error"][:300])
+            continue
+        rep.evaluations += r["reports"]
+        rep.count("object_level_reports_after_mixed_method_sequences", r["reports"])
+        for c in r["cases"]:
+            rep.nontrivial(["object"] + c)
+        for v in r["viol"]:
+            rep.violate(v["mechanism"], v["message"], {"case": v["case"]})
+    if rep.extra.get("object_level_reports_after_mixed_method_sequences", 0) == 0:
+        rep.inconclusive.append("no object-level report was built")
     need = {"bracketed": 1, "clamped-min": 1}
     for k in need:
         if classes.get(k, 0) == 0:
